@@ -18,7 +18,7 @@ import (
 //  4. damaged copies of finished files (only model = implementation for the two checkers)
 // A session is non-trivial when at least two distinct blocks were put.
 
-func genFinalOpts(r *RNG) wOpts {
+func c05GenOpts(r *RNG) wOpts {
 	o := genWOpts(r)
 	o.v1 = r.Chance(15)
 	if r.Chance(25) {
@@ -31,7 +31,7 @@ func genFinalOpts(r *RNG) wOpts {
 	return o
 }
 
-func distinctBlks(h [][]Blk) int {
+func c05DistinctBlks(h [][]Blk) int {
 	seen := map[string]bool{}
 	for _, b := range h {
 		for _, x := range b {
@@ -41,7 +41,7 @@ func distinctBlks(h [][]Blk) int {
 	return len(seen)
 }
 
-func genFinalRoots(r *RNG, alpha []Blk) []cid.Cid {
+func c05GenRoots(r *RNG, alpha []Blk) []cid.Cid {
 	switch r.Intn(10) {
 	case 0:
 		return nil
@@ -59,7 +59,7 @@ func genFinalRoots(r *RNG, alpha []Blk) []cid.Cid {
 	}
 }
 
-func genHistory(r *RNG, kind uint64, alpha []Blk, nput int) [][]Blk {
+func c05GenHistory(r *RNG, kind uint64, alpha []Blk, nput int) [][]Blk {
 	var h [][]Blk
 	for len(h) < nput {
 		if kind == 0 && r.Chance(20) {
@@ -86,7 +86,7 @@ func init() {
 		for i := 0; i < nSess; i++ {
 			r := c.R.Fork()
 			kind := uint64(pick(r, []int{0, 0, 0, 1, 1, 2, 3, 4, 4, 5}))
-			o := genFinalOpts(r)
+			o := c05GenOpts(r)
 			if kind == 5 || (kind == 3 && !r.Chance(10)) {
 				o.v1 = true
 			}
@@ -121,7 +121,7 @@ func init() {
 				alpha = alpha[:2]
 				c.Count("session:many-duplicates")
 			}
-			roots := genFinalRoots(r, alpha)
+			roots := c05GenRoots(r, alpha)
 			nput := pick(r, []int{0, 0, 1, 2, 3, 5, 8, 12, 20})
 			if boundary && nput > 5 {
 				nput = 5
@@ -135,10 +135,10 @@ func init() {
 			if kind >= 4 && nput == 0 {
 				nput = 1 // the deferred writer creates nothing before the first Put
 			}
-			h := genHistory(r, kind, alpha, nput)
-			in := finalInput(kind, o, roots, h, nil)
-			obs := runFinalImpl(c, kind, o, roots, h)
-			c.Emit("final", in, obs, distinctBlks(h) >= 2)
+			h := c05GenHistory(r, kind, alpha, nput)
+			in := c05FinalInput(kind, o, roots, h, nil)
+			obs := c05RunFinalImpl(c, kind, o, roots, h)
+			c.Emit("final", in, obs, c05DistinctBlks(h) >= 2)
 			c.Count(fmt.Sprintf("frontend:%d", kind))
 			c.Count(fmt.Sprintf("puts:%d", nput))
 			if o.v1 {
@@ -203,9 +203,9 @@ func init() {
 							h = append(h, []Blk{alpha[i]})
 						}
 						roots := []cid.Cid{b1.Cid}
-						in := finalInput(kind, o, roots, h, nil)
-						obs := runFinalImpl(c, kind, o, roots, h)
-						c.Emit("final", in, obs, distinctBlks(h) >= 2)
+						in := c05FinalInput(kind, o, roots, h, nil)
+						obs := c05RunFinalImpl(c, kind, o, roots, h)
+						c.Emit("final", in, obs, c05DistinctBlks(h) >= 2)
 						c.Count("exhaustive:histories<=3-over-4-blocks")
 					}
 				}
@@ -217,7 +217,7 @@ func init() {
 		for i := 0; i < nFlt; i++ {
 			r := c.R.Fork()
 			blks := genBlocks(r, 1+r.Intn(7), genOpts{identity: true, maxData: 200})
-			fs := filterSpec{inBlks: blks, inRoots: genRoots(r, blks, false), inV2: r.Bool(), inverse: r.Chance(35), version: pick(r, []int{1, 2, 2})}
+			fs := c05FilterSpec{inBlks: blks, inRoots: genRoots(r, blks, false), inV2: r.Bool(), inverse: r.Chance(35), version: pick(r, []int{1, 2, 2})}
 			for _, b := range blks {
 				if r.Chance(55) {
 					fs.sel = append(fs.sel, b.Cid)
@@ -251,9 +251,9 @@ func init() {
 			o := defaultWOpts
 			o.v1 = fs.version == 1
 			roots, h := fs.expected()
-			in := finalInput(6, o, roots, h, fs.val())
-			obs := runFilterCLI(c, fs)
-			c.Emit("final", in, obs, distinctBlks(h) >= 2)
+			in := c05FinalInput(6, o, roots, h, fs.val())
+			obs := c05RunFilterCLI(c, fs)
+			c.Emit("final", in, obs, c05DistinctBlks(h) >= 2)
 			c.Count("frontend:car-filter")
 		}
 
@@ -289,9 +289,9 @@ func init() {
 			os.RemoveAll(dir)
 			o := defaultWOpts
 			o.v1 = version == 1
-			hok, hdrs := fileTables(file)
+			hok, hdrs := c05FileTables(file)
 			in := VL{o.val(), VB(file), hok, hdrs, VN(1)}
-			c.Emit("finalfile", in, runFinalFileImpl(c, file), true)
+			c.Emit("finalfile", in, c05RunFinalFileImpl(c, file), true)
 			c.Count("frontend:car-create")
 		}
 
@@ -300,9 +300,9 @@ func init() {
 			r := c.R.Fork()
 			o := finishedOpts[i]
 			emit := func(g []byte, what string) {
-				hok, hdrs := fileTables(g)
+				hok, hdrs := c05FileTables(g)
 				in := VL{o.val(), VB(g), hok, hdrs, VN(0)}
-				c.Emit("finalfile", in, runFinalFileImpl(c, g), true)
+				c.Emit("finalfile", in, c05RunFinalFileImpl(c, g), true)
 				c.Count("damage:" + what)
 			}
 			emit(f, "none")
@@ -329,6 +329,15 @@ func init() {
 				}
 				emit(g, "index-offset-zero")
 				emit(append(append([]byte(nil), f...), 0), "trailing-byte")
+				// index stripped and IndexOffset := 0: an index-less CARv2 (accepted by car verify only without data padding)
+				end := 51 + int(o.dpad) + int(uint64(f[35])|uint64(f[36])<<8|uint64(f[37])<<16|uint64(f[38])<<24)
+				if end <= len(f) {
+					g2 := append([]byte(nil), f[:end]...)
+					for j := 43; j < 51; j++ {
+						g2[j] = 0
+					}
+					emit(g2, "index-stripped")
+				}
 			}
 		}
 	})
